@@ -91,6 +91,27 @@ INFO = {
  "C19-d-sadr-learning-memo": ("per-adapter memo skips SADR learning when the pair equals the last one", "same (router, network) sighting twice with an announcement or forget in between", "missed at first: the canonical state of the wire part was hand-picked and merged states that differ in the new memo field, so the BFS reached the middle state by a shorter history; caught after the state got an over-approximating component (all scalar attributes of adapters and cache)"),
  "C20-c-pending-higher-priority-forgotten": ("winning exception returns its own next transition, not the minimum", "two exceptions of different priority on one day, the higher one starting later", "caught as built"),
  "C20-d-rearm-dies-at-month-end": ("datetime_to_time via datetime(): day+1 not normalised at 24:00", "timer-driven run across a month end", "caught as built"),
+ # ---- wave 5
+ "C01-e-negative-zero-loses-sign": ("Real/Double constructor merges the None/int/float branches and loses the sign of -0.0", "a value of exactly negative zero built by the application, compared bitwise", "caught as built (boundary values include -0.0, octets compared with the reference)"),
+ "C01-f-bitstring-setitem-not-reduced": ("BitString.__setitem__ stores int(value) instead of reducing it to a bit", "a bit string filled by item assignment with a value other than 0/1 (True, 2, ...)", "missed at first (bit strings only built by the constructor); caught after bit strings filled by item assignment were added"),
+ "C02-e-length-escape-elif-became-if": ("Tag.decode length escape chain: elif became if", "a tag whose content is exactly 255 octets", "caught as built (length 255 is one of the boundary lengths)"),
+ "C02-f-boolean-keeps-stale-tagdata": ("Tag.decode no longer clears tagData for an application boolean", "one Tag object decoded into repeatedly, a boolean after a tag with content", "missed at first (every decode used a fresh Tag); caught after the lists of part (a) were also decoded into one re-used Tag object"),
+ "C03-e-fast-path-skips-empty-list-decode": ("APCISequence.decode returns early when there is no service data", "a service PDU whose only parameter is an empty untagged list", "caught as built (list length 0)"),
+ "C03-f-any-scan-tracks-open-contexts-in-a-set": ("Any.decode finds the end of the value with a set of open context numbers instead of a depth", "a value inside an Any that opens the same context number twice at once (COVSubscription, nested PropertyValue)", "missed at first (Any contents came from a palette of nine types and cast_out never runs Any.decode); caught after every constructed value of the registry was put inside an Any on the wire under enclosing contexts 0..3"),
+ "C04-e-unconfirmed-request-completes-active-iocb": ("ApplicationIOController.request sends unconfirmed requests through _app_request, which completes the active IOCB of that address", "the application sends an unconfirmed request of its own to a peer while a confirmed IOCB to that peer is outstanding", "missed at first (the client application only sent its confirmed requests); caught after 'the client sends an unconfirmed request to the same peer' became an explorer event"),
+ "C04-f-segmented-retry-count-reset": ("retry count of a segmented request starts over with every retry", "segmented request whose segments are acknowledged while the final answer never comes, retries >= 1", "caught as built (lasso detection in the closures and the retransmission count)"),
+ "C05-e-nak-trim-without-modulo-at-wrap": ("ServerSSM trims the window received since the last ack before a negative ack, count computed without modulo 256", "request of more than 256 segments, window size not dividing 256, one lost/duplicated frame in the window straddling the wrap", "caught as built (single faults around the wrap of 260-segment transfers)"),
+ "C05-f-short-wait-after-early-first-response-segment": ("ClientSSM waits one segment timeout instead of four after an early first response segment", "request and response both segmented, the final SegmentACK of the request lost, equal segment timeouts", "caught as built (single-fault sweep)"),
+ "C06-e-second-parked-packet-without-dadr": ("NSAP.indication parks the second packet for an unknown network before it is addressed", "cold cache and two packets for the same remote network before the I-Am-Router-To-Network comes back", "caught as built (bursts with a cold cache)"),
+ "C06-f-hop-zero-encoded-255": ("NPCI.encode writes a hop count of 0 as 255", "a message whose hop count is exhausted at the last router", "caught as built"),
+ "C07-e-update-drops-nak": ("APCI.update no longer copies apduNak", "a negative SegmentACK going through the typed class", "caught as built"),
+ "C07-f-decode-shares-source-payload": ("APDU.decode no longer takes its own copy of the payload", "the source buffer is written to after decoding", "missed at first (nobody touched the source after decoding); caught after 'the decoded payload does not change when the source buffer is written' was added"),
+ "C08-e-dlen-signed-octet": ("NPCI.decode reads DLEN/SLEN as a signed octet", "a DADR/SADR of 128 octets or more", "caught as built (address lengths up to 255)"),
+ "C08-f-routing-table-portinfo-carried-over": ("routing-table decode helper carries port info over to the next entry", "a table in which an entry with empty port info follows one with non-empty port info", "caught as built"),
+ "C09-e-table-encoders-not-idempotent": ("BDT/FDT table messages build their body in their own pduData and append to it on every encode", "the same message object encoded a second time", "missed at first (each message encoded once); caught after every message was encoded a second time"),
+ "C09-f-codec-logs-bad-header-and-carries-on": ("AnnexJCodec logs an undecodable BVLC header and carries on with the half-decoded message", "a cut, padded or runt datagram of a function whose decoder accepts an empty body", "caught as built"),
+ "C10-f-transaction-lists-shared-at-class-level": ("StateMachineAccessPoint defaults moved to class level: the two transaction lists are shared by all instances", "two devices in one interpreter, one of them in the middle of a transaction; or a device built after one was abandoned mid-transaction", "missed at first (one device per history, every history ran to quiescence); caught after the neighbour part (two devices side by side / successor of an abandoned device) was added"),
+ "C10-g-dcc-undefined-value-counts-as-disabled": ("the DeviceCommunicationControl filter treats every state other than enable/disableInitiation as disabled", "a corrupted DeviceCommunicationControl request carrying an undefined or no enable-disable value", "missed at first (the device under test did not offer the service); caught after DeviceCommunicationControl frames joined the base frames, with a reference for rightful silence"),
 }
 
 # seeded changes whose own property's check is silent but a sibling property's check decides them
